@@ -12,10 +12,91 @@ import (
 )
 
 type replay struct {
-	Kind string `json:"kind"` // "id" | "variant" | "parser"
+	Kind string `json:"kind"` // "id" | "variant" | "parser" | "dirty"
 	Fam  string `json:"family,omitempty"`
 	Hex  string `json:"hex"`
+	Prev string `json:"previous_full_hex,omitempty"` // dirty: what the receiver was decoded from before
 	Obs  any    `json:"observed,omitempty"`
+}
+
+// accepted is one shape of a family that decodes in minimal form
+type accepted struct {
+	sh      shape
+	full    []byte
+	variant string
+}
+
+// obsOf decodes full (after prev, into the same receiver) and returns variant and deep observation
+func obsOf(fam family, full []byte, prev ...[]byte) (string, string, error) {
+	var v, deep string
+	var err error
+	lastDst = nil
+	if pan, pv := vh.Recover(func() { v, err = fam.decode(full, prev...) }); pan {
+		return "", "", fmt.Errorf("panic: %v", pv)
+	}
+	if err == nil && lastDst != nil {
+		deep = deepObs(lastDst)
+	}
+	return v, deep, err
+}
+
+// dirtyCase: the receiver was first decoded from prev; the observation must be that of a fresh receiver
+func dirtyCase(c *vh.Ctx, cf *vh.CaseFile, fam family, it *vh.Item, tgt accepted, prev accepted, thin int, n *int) {
+	inner := it.Enc()
+	full := fam.full(it)
+	rp := replay{Kind: "dirty", Fam: fam.name, Hex: vh.Hex(inner), Prev: vh.Hex(prev.full)}
+	c.Begin(rp)
+	fv, fdeep, ferr := obsOf(fam, full)
+	if ferr != nil {
+		return // the variant monitor reports rejections of a fresh receiver
+	}
+	_, fdeep2, _ := obsOf(fam, full)
+	dv, ddeep, derr := obsOf(fam, full, prev.full)
+	class := fam.name + ":" + prev.variant + "->" + tgt.variant
+	c.Res.Count("dirty:"+vh.Hex(prev.full)+">"+vh.Hex(full), true, "dirty-receiver:"+fam.name)
+	differs := false
+	switch {
+	case derr == errDirtySetup:
+		c.Res.Distribution["dirty-setup-failed:"+fam.name]++
+		return
+	case derr != nil:
+		differs = true
+		c.Res.Violate("monitor", "dirty-receiver-rejects:"+class,
+			fmt.Sprintf("%s: %s decodes into a fresh receiver (%s) but is rejected by a receiver previously decoded from %s: %v", fam.name, vh.Hex(full), fv, vh.Hex(prev.full), derr), rp)
+	case dv != fv:
+		differs = true
+		c.Res.Violate("monitor", "dirty-receiver-differs:"+class,
+			fmt.Sprintf("%s: first element %d; a fresh receiver presents %s, a receiver previously decoded from %s presents %s (input %s)", fam.name, tgt.sh.id, fv, vh.Hex(prev.full), dv, vh.Hex(full)), rp)
+	case fdeep == fdeep2 && ddeep != fdeep:
+		differs = true
+		c.Res.Violate("monitor", "dirty-receiver-differs:"+class+":payload",
+			fmt.Sprintf("%s: same variant %s but re-encoding/JSON differ: fresh %.200s, after %s: %.200s (input %s)", fam.name, fv, fdeep, vh.Hex(prev.full), ddeep, vh.Hex(full)), rp)
+	}
+	// the model is a function of the input bytes only: the id named by the variant the dirty
+	// receiver presents goes through the same Coq check as a fresh observation
+	*n++
+	if differs || thin <= 1 || *n%thin == 0 {
+		o := observe(inner)
+		if derr != nil {
+			o.Id = nil
+		} else if dv != fv {
+			o.Id = nil
+			for _, id := range ids(fam.spec) {
+				if fam.spec[id] == dv {
+					k := int(id)
+					o.Id = &k
+					if id == prev.sh.id {
+						break
+					}
+				}
+			}
+		} else if differs {
+			o.Id = nil // right variant, stale payload: not the decoding of these bytes
+		}
+		o.Class = "dirty:" + class
+		rp.Obs = o
+		cf.Add(o.coq(inner), rp)
+	}
 }
 
 func run(c *vh.Ctx) error {
@@ -81,6 +162,7 @@ func run(c *vh.Ctx) error {
 		}
 		done := map[uint64]bool{}
 		exercised := map[uint64]bool{}
+		var acc []accepted
 		for _, sh := range fam.shapes {
 			if fam.firstAccepted && done[sh.id] {
 				continue
@@ -101,6 +183,7 @@ func run(c *vh.Ctx) error {
 			}
 			done[sh.id] = true
 			exercised[sh.id] = true
+			acc = append(acc, accepted{sh, base, baseVar})
 			for _, of := range outerForms {
 				for _, idf := range intForms(sh.id) {
 					for r := 0; r < rounds; r++ {
@@ -142,6 +225,47 @@ func run(c *vh.Ctx) error {
 								fmt.Sprintf("%s: first element %d names %s, decoded variant is %s (input %s)", fam.name, sh.id, want, got, o.Hex), rp)
 						}
 					}
+				}
+			}
+		}
+		// ---- dirty receivers: every accepted shape decoded into a value that already holds
+		// another variant (first accepted shape of every other id) or the same variant with a
+		// different payload
+		ndirty := 0
+		for ti, tgt := range acc {
+			var prevs []accepted
+			seenId := map[uint64]bool{}
+			for pi, p := range acc {
+				if pi == ti {
+					continue
+				}
+				if p.sh.id == tgt.sh.id {
+					if !seenId[p.sh.id] && string(p.full) != string(tgt.full) {
+						prevs = append(prevs, p)
+						seenId[p.sh.id] = true
+					}
+				} else if !seenId[p.sh.id] {
+					prevs = append(prevs, p)
+					seenId[p.sh.id] = true
+				}
+			}
+			if !seenId[tgt.sh.id] { // same variant, other payload: a re-formed copy of the same list
+				alt := tagged(vh.F1, vh.F1, tgt.sh.id, tgt.sh.rest)
+				prevs = append(prevs, accepted{tgt.sh, fam.full(alt), tgt.variant})
+			}
+			forms := [][2]vh.Form{{vh.Fimm, vh.MinForm(tgt.sh.id)}}
+			if c.Thorough() {
+				for _, of := range outerForms[1:] {
+					forms = append(forms, [2]vh.Form{of, vh.MinForm(tgt.sh.id)})
+				}
+			} else {
+				idfs := intForms(tgt.sh.id)
+				forms = append(forms, [2]vh.Form{outerForms[1+c.Rng.Intn(5)], idfs[c.Rng.Intn(len(idfs))]})
+			}
+			for _, f := range forms {
+				it := tagged(f[0], f[1], tgt.sh.id, tgt.sh.rest)
+				for _, p := range prevs {
+					dirtyCase(c, cf, fam, it, tgt, p, c.Pick(8, 4), &ndirty)
 				}
 			}
 		}
@@ -374,6 +498,23 @@ func doReplay(c *vh.Ctx, idCase func([]byte, string, *int64, bool) obs) error {
 		}
 	}
 	idCase(b, hdr, exp, true)
+	if rp.Kind == "dirty" {
+		for _, fam := range append(families(), families2()...) {
+			if fam.name != rp.Fam {
+				continue
+			}
+			it, _, perr := vh.ParseItem(b)
+			if perr != nil || it.K != vh.KArr || len(it.Xs) == 0 {
+				continue
+			}
+			prevFull := vh.UnHex(rp.Prev)
+			pv, _, _ := obsOf(fam, prevFull)
+			tv, _, _ := obsOf(fam, fam.full(it))
+			n := 0
+			cf := c.NewCaseFile("id", header)
+			dirtyCase(c, cf, fam, it, accepted{shape{it.Xs[0].N, it.Xs[1:]}, fam.full(it), tv}, accepted{shape{}, prevFull, pv}, 1, &n)
+		}
+	}
 	if rp.Kind == "variant" {
 		for _, fam := range append(families(), families2()...) {
 			if fam.name != rp.Fam {
